@@ -49,6 +49,16 @@ class Aln:
     def pid(self, a, b):
         nid, n = self.pair(a, b)
         return (nid / n) if n else 0.0
+    def pmatch(self, a, b):
+        """(nm, len): columns where both / either is a residue"""
+        ra = [self.is_res(c) for c in a]; rb = [self.is_res(c) for c in b]
+        return sum(1 for p, q in zip(ra, rb) if p and q), sum(1 for p, q in zip(ra, rb) if p or q)
+    def jc_counts(self, a, b):
+        if self.mode == "text": ok = is_alpha
+        else: ok = lambda c: c < ABC[self.mode][0]
+        n1 = sum(1 for x, y in zip(a, b) if ok(x) and ok(y) and self.key(x) == self.key(y))
+        n2 = sum(1 for x, y in zip(a, b) if ok(x) and ok(y) and self.key(x) != self.key(y))
+        return n1, n2
     def add_row(self, r):
         self.rows.append(r); self._mx = None
     def pairs(self):
@@ -69,6 +79,29 @@ class Aln:
     def pidx(self, i, j):
         nid, n = self.pairs()[i][j]
         return (nid / n) if n else 0.0
+
+class EaselMT:
+    """esl_randomness_Create(seed) (Mersenne Twister with easel's Knuth-LCG seeding) + esl_rnd_Roll, written from esl_random.c
+    independently of the Lean model; used to replay the sampling branch of esl_dst_*Average*"""
+    def __init__(self, seed):
+        self.mt = [seed & 0xffffffff]
+        for _ in range(623): self.mt.append((69069 * self.mt[-1]) & 0xffffffff)
+        self.mti = 624
+    def u32(self):
+        mt = self.mt
+        if self.mti >= 624:
+            for z in range(624):
+                y = (mt[z] & 0x80000000) | (mt[(z + 1) % 624] & 0x7fffffff)
+                mt[z] = mt[(z + 397) % 624] ^ (y >> 1) ^ (0x9908b0df if y & 1 else 0)
+            self.mti = 0
+        x = mt[self.mti]; self.mti += 1
+        x ^= x >> 11; x ^= (x << 7) & 0x9d2c5680; x ^= (x << 15) & 0xefc60000; x ^= x >> 18
+        return x & 0xffffffff
+    def roll(self, n):
+        factor = 0xffffffff // n
+        while True:
+            u = self.u32() // factor
+            if u < n: return u
 
 def components(n, link):
     """union-find over all pairs"""
@@ -143,6 +176,36 @@ def gsc_exact(d, n):
     S = sum(w)
     return [Fraction(1)] * n if S == 0 else [v / S * n for v in w]
 
+def upgma_exact(d, n):
+    """the tree part of gsc_exact: (left, right, ld, rd) in C layout over exact fractions"""
+    D = [row[:] for row in d]
+    idx = [-i for i in range(n)]; nin = [1] * n
+    height = [Fraction(0)] * (n - 1); left = [0] * (n - 1); right = [0] * (n - 1)
+    ld = [Fraction(0)] * (n - 1); rd = [Fraction(0)] * (n - 1)
+    for N in range(n, 1, -1):
+        mn, i, j = D[0][1], 0, 1
+        for r in range(N):
+            for c in range(r + 1, N):
+                if D[r][c] < mn: mn, i, j = D[r][c], r, c
+        k = N - 2
+        left[k], right[k] = idx[i], idx[j]
+        height[k] = mn / 2
+        ld[k] = rd[k] = height[k]
+        if idx[i] > 0: ld[k] = max(Fraction(0), ld[k] - height[idx[i]])
+        if idx[j] > 0: rd[k] = max(Fraction(0), rd[k] - height[idx[j]])
+        def move(p, t):
+            if p == t: return
+            for r in range(N): D[r][t], D[r][p] = D[r][p], D[r][t]
+            D[t], D[p] = D[p], D[t]
+            idx[p], idx[t] = idx[t], idx[p]; nin[p], nin[t] = nin[t], nin[p]
+        move(j, N - 1); move(i, N - 2)
+        i, j = N - 2, N - 1
+        for c in range(N):
+            D[i][c] = (nin[i] * D[i][c] + nin[j] * D[j][c]) / (nin[i] + nin[j])
+            D[c][i] = D[i][c]
+        nin[i] += nin[j]; idx[i] = N - 2
+    return left, right, ld, rd
+
 def upgma_tie_free(d, n):
     """UPGMA over exact fractions (independent of the Lean model): True iff at every merge the minimum distance is
     attained by exactly one pair, i.e. the tree does not depend on how ties are broken"""
@@ -180,7 +243,12 @@ class C16(Prop):
         "gsc_identical_rows_fails_at", "blosum_identical_rows", "pairIdMx_spec", "blosum_relisting",
         "singleLinkage_numbering_not_first_seen", "gsc_relisting_fails_at", "pbText_is", "pbDigital_is",
         "upgma_joins_minimum", "threshold_at_attained_identity", "idFilter_dropped_by_earlier", "idFilterText_keeps_earlier",
-        "idFilterDigital_keeps_better_ranked", "gsc_relisting_tie_free", "gsc_identical_rows_tie_free", "tieFree_checkable")]
+        "idFilterDigital_keeps_better_ranked", "gsc_relisting_tie_free", "gsc_identical_rows_tie_free", "tieFree_checkable",
+        "pbAdv_is", "pbAdv_sum_nonneg", "pbAdv_identical_rows", "pbAdv_formula", "pbAdv_no_sampling",
+        "pb_relisting_fails_with_sampling", "idFilterAdv_spec", "idFilterAdv_preference_picks_representative",
+        "upgma_well_formed", "upgma_parent_child", "upgma_heights", "diffMx_in_unit_interval", "upgma_cladesizes",
+        "cladesizes_count_leaves", "gscTree_sum_nonneg", "gsc_is_gscTree_of_upgma",
+        "pairMatch_spec", "pairMatch_symm_range", "jukesCantor_symm", "jukescantor_spec", "average_spec", "averageId_range")]
     claimed = True
     technique = ("Lean 4 proof over the exact (Q) instance of a numeric-class-polymorphic executable model of esl_distance/esl_cluster/"
                  "esl_msacluster/esl_quicksort/esl_msaweight/esl_tree(UPGMA) + bit-exact differential correspondence of the Float instance "
@@ -204,26 +272,33 @@ class C16(Prop):
                   "under the hypothesis that is actually needed, no tie for the minimum in any UPGMA pass (gsc_relisting_tie_free, "
                   "gsc_identical_rows_tie_free), and monitored there as well (exact-fraction UPGMA in the monitor). The UPGMA model keeps "
                   "distances keyed by cluster identity (append-only rows) and the C position table separately; same operands, same order. "
-                  "consensus_by_sample (>50000 rows) is outside the stated range and not modelled.")
-    trusted_base = ["hand model of esl_distance.c (PairId, PairIdMx, DiffMx), esl_cluster.c, esl_msacluster.c, esl_quicksort.c, esl_msaweight.c "
+                  "consensus_by_sample is modelled (the sampler esl_rand64_Deal in binary64, bit-exact) and driven through ESL_MSAWEIGHT_CFG with "
+                  "lowered sampthresh; with a sampled consensus PB weights keep sum/non-negativity/identical-rows/formula (proved for every "
+                  "sample) but are NOT equivariant under relisting (pb_relisting_fails_with_sampling; outside the stated range for the "
+                  "default sampthresh 50000).")
+    trusted_base = ["hand model of esl_distance.c (PairId, PairMatch, JukesCantor, PairIdMx, DiffMx, AverageId/AverageMatch incl. sampling), esl_rand64.c (Deal), esl_cluster.c, esl_msacluster.c, esl_quicksort.c, esl_msaweight.c "
                     "(PB text/digital, BLOSUM, GSC, IDFilter text/adv), esl_tree.c (cluster_engine UPGMA, SetCladesizes), esl_vectorops.c "
                     "(DSum/DNorm/DScale) tied by exact differential run (h_weights.c, ASan+UBSan build of the working tree)",
                     "Lean compiler/runtime for the executable driver; Float/Float32 = IEEE binary64/binary32 as in gcc -O1 -ffp-contract=off",
                     "python monitors (props/c16.py) as independent oracle on implementation output"]
-    assumptions = ["theorems are over Q: float rounding of the final weights is not covered (L0)",
+    assumptions = ["theorems are over Q (Jukes-Cantor: over R with Real.log/Real.exp): float rounding of the results is not covered (L0)",
+                   "esl_dst_*Average*: the exhaustive-branch test `N <= sqrt(2.*max_comparisons)` is modelled as N*N <= 2*max_comparisons "
+                   "(equal for N < 2^20); max_comparisons >= 1 (0 divides 0 by 0)",
                    "GSC with tied distances: the binary64 code can break a tie differently from exact arithmetic (two distances equal over Q "
                    "need not round to the same double), so its tree, and its weights, may differ from the Q instance by more than rounding; "
                    "the independent exact-fraction GSC oracle in the monitor is therefore applied only where no UPGMA step ties",
                    "GSC: equal weights for identical rows and equivariance under relisting are false in general (known findings) and proved "
                    "when no UPGMA pass has a tie for its minimum",
-                   "not covered in the anchored files: esl_dst_*JukesCantor*, *PairMatch*, Average*/Connectivity, esl_tree.c beyond cluster_engine(UPGMA)/SetCladesizes, "
-                   "esl_msaweight.c consensus_by_sample, benchmark/stats drivers",
+                   "not covered in the anchored files: esl_dst_*JukesCantorMx, XAvgConnectivity/XAvgSubsetConnectivity, esl_tree.c beyond cluster_engine(UPGMA)/SetCladesizes, "
+                   "benchmark/stats drivers",
                    "esl_msa_SequenceSubset is exercised (rows of the filtered MSA compared with the originals) but not modelled",
-                   "allocation never fails; nseq <= sampthresh (consensus_by_sample not modelled)",
+                   "allocation never fails; cfg->nsamp >= 1 and cfg->seed != 0 (nsamp <= 0 asks for a zero-size allocation, seed 0 = arbitrary seed)",
+                   "esl_rand64_Deal (Vitter D/A) is modelled in binary64 with the libm exp/log/floor/round the C code calls; no theorem about "
+                   "the sample itself — the weighting/filter theorems quantify over every sampler function",
                    "RF characters are ASCII (esl_abc_CIsGap indexes inmap[] with a signed char)"]
     rule = ("cases = alignments (random / evolved / redundant / fragment / mixed styles, all-gap columns, empty rows, duplicates, degenerate "
-            "and non-residue symbols, +-RF) x ops (pairid, pairidmx, slink, blosum, pb, pbadv, gsc, idfilter, idfilteradv) with thresholds "
-            "including attained identities +-1ulp, followed by the same ops on a row-permuted copy; explicit-graph clustering; quicksort; "
+            "and non-residue symbols, +-RF) x ops (pairid, pairmatch, jc, avgid / avgmatch with max_comparisons around the exhaustive/sampling boundary, pairidmx, slink, blosum, pb, pbadv, gsc, idfilter, idfilteradv) with thresholds "
+            "including attained identities +-1ulp, followed by the same ops on a row-permuted copy; explicit-graph clustering; quicksort; esl_rand64_Deal; esl_tree_UPGMA on explicit matrices (ties, zeros, ultrametric); "
             "free-standing PairId incl. unaligned. non-trivial = at least 3 successful computing ops; distinct by output trace")
     diverge_is_violation = True    # every op is a deterministic function of the alignment that the model specifies bit-exactly
     quick_budget_s = 90
@@ -308,6 +383,23 @@ class C16(Prop):
                 out.append(rng.random())
         return out
 
+    def cfg_args(self, rng, n):
+        """the public fields of ESL_MSAWEIGHT_CFG: defaults, boundary values (sampthresh = nseq-1 / nseq, maxfrag around the
+        number of sampled fragments, nsamp below / at / above nseq), and the sampling branch made reachable for small inputs"""
+        ft = rng.choice([0.5, 0.5, 0.0, 1.0, 0.3, 0.75, 0.9, rng.random()])
+        sf = rng.choice([0.5, 0.5, 0.0, 1.0, 0.3, 0.75, 0.1, rng.random()])
+        a = "irf=%d ft=%s sf=%s" % (rng.choice([0, 0, 1]), f32bits(ft), f32bits(sf))
+        r = rng.random()
+        if r < 0.25:
+            self._tally("cfg", "defaults"); return a
+        ns = rng.choice([1, 2, 3, 4, max(1, n // 2), max(1, n - 1), n, n + 5, 10000])
+        k = min(ns, n)
+        st = rng.choice([n - 1, n - 1, n - 1, 0, n, 50000, n // 2, -1])
+        mf = rng.choice([0, 0, 1, 2, 5000, k, max(0, k - 1), k // 2, -1])
+        al = rng.choice([1, 1, 1, 1, 0])
+        self._tally("cfg", "sampling" if (al and n > st) else "no-sampling")
+        return a + " as=%d st=%d ns=%d mf=%d seed=%d" % (al, st, ns, mf, rng.choice([42, 1, 7, rng.randrange(1, 1 << 62)]))
+
     def aln_ops(self, mode, rows, rf):
         ops = ["row h=" + bytes(r).hex() for r in rows]
         if rf is not None: ops.append("rf h=" + bytes(rf).hex())
@@ -322,6 +414,17 @@ class C16(Prop):
                 i, j = rng.randrange(n), rng.randrange(n)
                 ops += ["pairid i=%d j=%d" % (i, j), "pairid i=%d j=%d" % (j, i)]
         ops.append("pairid i=%d j=%d" % (rng.randrange(n), rng.randrange(n)))
+        for _ in range(rng.randrange(0, 3)):
+            i, j = rng.randrange(n), rng.randrange(n)
+            kk = "" if mode != "text" else " k=%d" % rng.choice([4, 20, 2, 26, 3])
+            ops += ["pairmatch i=%d j=%d" % (i, j), "pairmatch i=%d j=%d" % (j, i), "jc i=%d j=%d%s" % (i, j, kk), "jc i=%d j=%d%s" % (j, i, kk)]
+        if rng.random() < 0.6:
+            half = n * n // 2
+            cands = [1, 2, 3, n, half - 1, half, half + 1, (n * n + 1) // 2, n * (n - 1) // 2, n * (n - 1) // 2 - 1, 10, 50, 1000000]
+            for _ in range(rng.randrange(1, 3)):
+                mx = max(1, rng.choice(cands))
+                if mx > 3000 and n * n > 2 * mx: mx = 3000        # sampling branch: bounded work
+                ops.append("%s max=%d" % (rng.choice(["avgid", "avgid", "avgmatch"]), mx))
         if n <= 40 and rng.random() < 0.5: ops.append("pairidmx")
         if n <= 40 and rng.random() < 0.2: ops.append("diffmx")
         if rng.random() < 0.25 and not big:
@@ -332,16 +435,15 @@ class C16(Prop):
             ops += ["slink maxid=" + dbits(0.0), "blosum maxid=" + dbits(0.0), "idfilter maxid=" + dbits(0.0)]
         ops.append("pb")
         if mode != "text":
-            ft = rng.choice([0.5, 0.5, 0.0, 1.0, 0.3, 0.75, 0.9, rng.random()])
-            sf = rng.choice([0.5, 0.5, 0.0, 1.0, 0.3, 0.75, 0.1, rng.random()])
-            ops.append("pbadv irf=%d ft=%s sf=%s" % (rng.choice([0, 0, 1]), f32bits(ft), f32bits(sf)))
+            ops.append("pbadv " + self.cfg_args(rng, n))
+            if rng.random() < 0.3: ops.append("pbadv " + self.cfg_args(rng, n))
         if not big or rng.random() < 0.3: ops.append("gsc")
         ops.append("idfilter maxid=" + dbits(th[2]))
         if mode != "text":
-            pref = rng.choice([1, 1, 2, 3])
-            ops.append("idfilteradv maxid=%s pref=%d irf=%d ft=%s sf=%s seed=%d" % (
-                dbits(th[rng.randrange(3)]), pref, rng.choice([0, 0, 1]), f32bits(rng.choice([0.5, 0.3, 1.0])),
-                f32bits(rng.choice([0.5, 0.2, 0.9])), rng.choice([42, 1, rng.randrange(1, 1 << 62)])))
+            for pref in ([rng.choice([1, 1, 2, 3])] if rng.random() < 0.7 else [1, 2, 3]):
+                c = self.cfg_args(rng, n)
+                if "seed=" not in c: c += " seed=%d" % rng.choice([42, 1, rng.randrange(1, 1 << 62)])
+                ops.append("idfilteradv maxid=%s pref=%d %s" % (dbits(th[rng.randrange(3)]), pref, c))
         return ops, th
 
     def _tally(self, key, val):
@@ -385,7 +487,34 @@ class C16(Prop):
             vals = [float(rng.randrange(0, rng.choice([2, 3, 5, 100]))) for _ in range(k)]
             if rng.random() < 0.3: vals = [rng.random() for _ in range(k)]
             ops.append("qsort w=" + ",".join(dbits(v) for v in vals))
+        for _ in range(rng.randrange(0, 3)):     # esl_rand64_Deal by itself: method A (n <= 13m), method D, m = 1, m = n
+            nn = rng.choice([1, 2, 5, 14, 27, 60, 300, 1000, rng.randrange(1, 5000), rng.randrange(1, 200000)])
+            m = rng.choice([1, 1, 2, 3, nn, max(1, nn // 13), max(1, nn // 14), max(1, nn // 2), rng.randrange(1, nn + 1)])
+            m = min(m, 400)
+            ops.append("deal64 m=%d n=%d seed=%d" % (m, nn, rng.choice([42, 1, rng.randrange(1, 1 << 62)])))
         return {"name": name, "ops": ops, "sticky": 1, "symmetric": sym}
+
+    def tree_case(self, rng, name):
+        """esl_tree_UPGMA on explicit symmetric matrices: generic, ultrametric, few distinct values (ties), zeros, d > 1"""
+        ops = ["abc t=text"]
+        for _ in range(rng.randrange(1, 4)):
+            n = rng.choice([2, 2, 3, 4, 5, 6, 8, 12, rng.randrange(2, 41)])
+            style = rng.choice(["random", "random", "dyadic", "ties", "zeros", "equal", "clock", "large"])
+            self._tally("tree_style", style)
+            d = [[0.0] * n for _ in range(n)]
+            pos = [rng.random() for _ in range(n)]
+            for i in range(n):
+                for j in range(i + 1, n):
+                    if style == "random": v = rng.random()
+                    elif style == "dyadic": v = rng.randrange(0, 1025) / 1024.0
+                    elif style == "ties": v = rng.choice([0.0, 0.25, 0.5, 0.75, 1.0])
+                    elif style == "zeros": v = 0.0 if rng.random() < 0.7 else rng.random()
+                    elif style == "equal": v = 0.5
+                    elif style == "clock": v = abs(pos[i] - pos[j])
+                    else: v = rng.random() * rng.choice([1, 10, 1e6])
+                    d[i][j] = d[j][i] = v
+            ops.append("upgma n=%d d=%s" % (n, ",".join(dbits(d[i][j]) for i in range(n) for j in range(i + 1, n))))
+        return {"name": name, "ops": ops, "sticky": 1}
 
     def pairstr_case(self, rng, name):
         mode = rng.choice(["text", "amino", "dna"])
@@ -399,6 +528,8 @@ class C16(Prop):
             b = [x if rng.random() < 0.6 else rng.choice(res + gaps[:1]) for x in (a + a)[:lb]]
             if len(b) < lb: b += [rng.choice(res) for _ in range(lb - len(b))]
             ops.append("pairstr a=%s b=%s" % (bytes(a).hex() or "-", bytes(b).hex() or "-"))
+            if rng.random() < 0.7:
+                ops.append("distpair a=%s b=%s%s" % (bytes(a).hex() or "-", bytes(b).hex() or "-", "" if mode != "text" else " k=%d" % rng.choice([4, 20, 2, 26])))
         return {"name": name, "ops": ops, "sticky": 1}
 
     def corpus(self, ctx):
@@ -434,6 +565,16 @@ class C16(Prop):
         c.append(mk("dig-rf-allgap", "amino", [am("ACDEFGHIKL"), am("ACDEFGH---"), am("--DEFGHIKL")], dstd, rf=".........."))
         c.append(mk("dig-empty-rows", "amino", [am("----------"), am("~~~~~~~~~~"), am("ACDEFGHIKL")], dstd))
         c.append(mk("dig-single", "amino", [am("ACDEFGHIKL")], dstd))
+        samp = ["pbadv st=2 ns=3 mf=5000 seed=42", "pbadv st=2 ns=3 mf=0 seed=42", "pbadv st=2 ns=10 mf=2 seed=7", "pbadv st=5 ns=3",
+                "pbadv st=2 ns=3 as=0", "pbadv st=4 ns=1 mf=1 seed=1", "pbadv irf=1 st=0 ns=2 mf=1 seed=3",
+                "idfilteradv maxid=%s pref=1 st=2 ns=3 mf=0 seed=42" % dbits(0.62), "idfilteradv maxid=%s pref=1 st=2 ns=2 mf=5 seed=9" % dbits(0.5),
+                "idfilteradv maxid=%s pref=2 st=2 ns=2 seed=9" % dbits(0.5), "idfilteradv maxid=%s pref=3 st=2 ns=2 seed=9" % dbits(0.5)]
+        c.append(mk("dig-sampling", "amino", [am("ACDEFGHIKL"), am("ACDEFGH---"), am("--DEFGHIKL"), am("ACXEFBHIK*"), am("~~~EFG~~~~")], samp))
+        c.append(mk("dig-sampling-rf", "amino", [am("ACDEFGHIKL"), am("ACDEFGH---"), am("--DEFGHIKL")], samp, rf="xx..xxxx.x"))
+        c.append(mk("dig-sampling-frags", "dna", [[0, 1, 2, 3, 4, 4, 4, 4, 4, 4], [4, 4, 4, 4, 4, 4, 0, 1, 2, 3], [4, 4, 4, 0, 1, 4, 4, 4, 4, 4],
+                                                  [0, 1, 2, 3, 0, 1, 2, 3, 0, 1], [4, 4, 4, 4, 4, 4, 4, 4, 4, 4], [17, 17, 0, 1, 16, 16, 4, 4, 4, 4]], samp))
+        c.append({"name": "deal64", "sticky": 1, "ops": ["abc t=text"] + ["deal64 m=%d n=%d seed=%d" % t for t in
+                  [(1, 1, 42), (1, 10, 42), (5, 52, 42), (3, 300, 42), (10, 10, 1), (20, 100000, 7), (200, 2000, 9), (7, 91, 3), (7, 92, 3)]]})
         return c
 
     def extra_evidence(self, ctx):
@@ -466,6 +607,8 @@ class C16(Prop):
             out.append(self.graph_case(rng, "graph%d" % c))
         for c in range(150 if quick else 1000):
             out.append(self.pairstr_case(rng, "pairstr%d" % c))
+        for c in range(200 if quick else 1500):
+            out.append(self.tree_case(rng, "tree%d" % c))
         # spread the expensive cases evenly, so that no batch of the engine (400 cases, one 300 s timeout per batch and side)
         # carries all of them: a loaded machine must not turn a slow batch into a "hang"
         heavy = [c for c in out if c["name"].startswith(("big", "tall", "wide", "max"))]
@@ -525,7 +668,7 @@ class C16(Prop):
                     for k in notes: bump(k)
                     continue
                 return (i, a, b)
-            tol = self._tolerated(op, a, b)
+            tol = self._tolerated(op, a, b, case["ops"][i] if i < len(case["ops"]) else "", case["ops"][0])
             if tol:
                 bump(tol)
                 continue
@@ -549,12 +692,16 @@ class C16(Prop):
                 if 0 <= k < len(old) and v < len(old): nin[v] = old[k]
         return (f["nc"], [m[x] for x in c], nin)
 
-    def _tolerated(self, op, a, b):
+    def _tolerated(self, op, a, b, full="", first=""):
         try:
             if op in ("slink", "cluster") and a.startswith("ok nc=") and b.startswith("ok nc="):
                 if self._relabel(a) == self._relabel(b): return "same_partition_other_numbering"
             if op in ("idfilter", "idfilteradv") and a.startswith("ok same=1 kept=") and b.startswith("ok same=1 kept="):
-                return "kept_set_differs_from_model_preference"     # independence + maximality are checked by the monitor
+                # the "conscover" preference has ties, and which of two equally preferred rows survives is esl_quicksort's
+                # business, not the property's (independence + maximality are checked by the monitor). The other rules
+                # (text mode / origorder: lower index first; random: distinct doubles) determine the kept set: compared exactly.
+                if (op == "idfilter" and first != "abc t=text") or (op == "idfilteradv" and (" pref=1" in full or " pref=" not in full)):
+                    return "kept_set_differs_from_model_preference"
             if op == "qsort" and a.startswith("ok ") and b.startswith("ok "):
                 if sorted(a.split()[1].split(",")) == sorted(b.split()[1].split(",")): return "other_order_among_ties"
         except Exception:
@@ -607,6 +754,22 @@ class C16(Prop):
                 exp = "ok %s %d %d" % (dbits(nid / nn if nn else 0.0), nid, nn)
                 if l != exp: return Failure("monitor", "PairId: got %r, definition gives %r" % (l, exp))
                 cnt("pairstr"); continue
+            if w[0] in ("pairmatch", "jc", "distpair"):
+                if w[0] == "distpair":
+                    a = list(bytes.fromhex(kv["a"])) if kv["a"] != "-" else []
+                    b = list(bytes.fromhex(kv["b"])) if kv["b"] != "-" else []
+                    parts = l.split(" / ")
+                else:
+                    a, b = rows[int(kv["i"])], rows[int(kv["j"])]
+                    parts = [l, None] if w[0] == "pairmatch" else [None, l]
+                K = int(kv.get("k", 4)) if aln.mode == "text" else ABC[aln.mode][0]
+                r_ = self._check_distpair(aln, a, b, K, parts)
+                if r_: return Failure("monitor", r_)
+                cnt(w[0]); continue
+            if w[0] in ("avgid", "avgmatch"):
+                r_ = self._check_average(aln, w[0], int(kv["max"]), l)
+                if r_: return Failure("monitor", r_)
+                cnt(w[0]); continue
             if w[0] == "pairid":
                 i, j = int(kv["i"]), int(kv["j"])
                 nid, nn = aln.pair(rows[i], rows[j])
@@ -626,6 +789,16 @@ class C16(Prop):
                         if v[i * n + j] != e or v[i * n + j] != v[j * n + i]:
                             return Failure("monitor", "PairIdMx[%d][%d] = %r, definition gives %r" % (i, j, v[i * n + j], e))
                 cnt("pairidmx"); continue
+            if w[0] == "upgma":
+                r = self._check_tree(int(kv["n"]), [undbits(x) for x in kv["d"].split(",")], f, cnt)
+                if r: return Failure("monitor", "esl_tree_UPGMA: " + r)
+                cnt("upgma"); continue
+            if w[0] == "deal64":
+                m_, n_ = int(kv["m"]), int(kv["n"])
+                d = [int(x) for x in l.split()[1].split(",")]
+                if len(d) != m_ or any(not (0 <= x < n_) for x in d) or any(a >= b for a, b in zip(d, d[1:])):
+                    return Failure("monitor", "esl_rand64_Deal(%d,%d) is not a sorted sample of distinct indices: %r" % (m_, n_, d[:10]))
+                cnt("deal64"); continue
             if w[0] == "cluster":
                 nn = int(kv["n"]); adj = kv["adj"]
                 c = [int(x) for x in f["c"].split(",")]
@@ -728,6 +901,7 @@ class C16(Prop):
                         if not close(wt[i], float(e[i])): return Failure("monitor", "PB weight %d is %r, the 1/(r*c) formula gives %r" % (i, wt[i], float(e[i])))
                         st["L0_max_abs_dev_pb"] = max(st.get("L0_max_abs_dev_pb", 0.0), abs(float(Fraction(wt[i]) - e[i])))
                 cur["res"][op] = wt
+                if w[0] == "pbadv" and f.get("samp") == "1": cur.setdefault("sampled", set()).add(op)
                 cnt(w[0]); continue
         # permutation equivariance between the two blocks of the case
         if len(blocks) == 2 and len(blocks[0]["rows"]) == len(blocks[1]["rows"]) and blocks[0]["rows"]:
@@ -737,6 +911,10 @@ class C16(Prop):
                 if w0 is None: continue
                 name = op.split()[0]
                 derived_tie = False
+                if op in blocks[0].get("sampled", ()) or op in blocks[1].get("sampled", ()):
+                    # consensus_by_sample draws row INDICES: the consensus, hence the weights, depend on the listing order
+                    # (Lean: pb_relisting_fails_with_sampling); sum / non-negativity / identical rows are still checked above
+                    cnt("perm-skipped-sampled-consensus"); continue
                 if name == "gsc":
                     a0 = Aln(case["ops"][0].split("=")[1]); a0.rows = r0
                     if not self._tie_free(a0): continue
@@ -759,6 +937,108 @@ class C16(Prop):
                             break
                         return Failure("monitor", "%s: relisting the rows changed the weight of a sequence: %r vs %r" % (name, w0[j], w1[i]))
                 cnt("perm-" + name)
+        return None
+
+    def _check_distpair(self, aln, a, b, K, parts):
+        import math
+        inf = dbits(float("inf"))
+        if parts[0] is not None:
+            if len(a) != len(b): exp = "einval %s 0 0" % dbits(0.0)
+            else:
+                nm, ln = aln.pmatch(a, b)
+                exp = "ok %s %d %d" % (dbits(nm / ln if ln else 0.0), nm, ln)
+            if parts[0] != exp: return "PairMatch: got %r, definition (both residues / either residue) gives %r" % (parts[0], exp)
+        if parts[1] is not None:
+            f = parts[1].split()
+            if len(a) != len(b):
+                if parts[1] != "einval %s %s" % (inf, inf): return "JukesCantor on unaligned strings returned %r" % parts[1]
+                return None
+            n1, n2 = aln.jc_counts(a, b)
+            if n1 + n2 == 0:
+                if parts[1] != "edivzero %s %s" % (inf, inf): return "JukesCantor with no comparable column returned %r" % parts[1]
+                return None
+            if f[0] != "ok": return "JukesCantor returned %r" % parts[1]
+            d, v = undbits(f[1]), undbits(f[2])
+            D = Fraction(n2, n1 + n2)
+            if D * K >= K - 1:                       # saturation: 1 - D*K/(K-1) <= 0
+                if not (d == float("inf") and v == float("inf")): return "JukesCantor at saturation (D=%s, K=%d) returned %r" % (D, K, parts[1])
+                return None
+            ed = -math.log(1.0 - float(D) * K / (K - 1.0)) * K / (K - 1.0)
+            ev = math.exp(2.0 * K * ed / (K - 1.0)) * float(D) * (1.0 - float(D)) / (n1 + n2)
+            if not (close(d, ed, 1e-9) and close(v, ev, 1e-9)) or d < 0 or v < 0:
+                return "JukesCantor(n1=%d,n2=%d,K=%d) = %r, %r; formula gives %r, %r" % (n1, n2, K, d, v, ed, ev)
+            if n2 == 0 and not (d == 0.0 and v == 0.0): return "JukesCantor of sequences without substitutions is %r, %r" % (d, v)
+        return None
+
+    def _check_average(self, aln, op, maxc, l):
+        import math
+        n = len(aln.rows)
+        if not l.startswith("ok "): return "%s returned %r" % (op, l)
+        got = undbits(l.split()[1])
+        if op == "avgid": val = lambda i, j: (lambda p: Fraction(p[0], p[1]) if p[1] else Fraction(0))(aln.pairs()[i][j])
+        else:
+            def val(i, j):
+                nm, ln = aln.pmatch(aln.rows[i], aln.rows[j])
+                return Fraction(nm, ln) if ln else Fraction(0)
+        if n <= 1: exp = Fraction(1)
+        elif n <= maxc and n <= math.sqrt(2.0 * maxc) and n * (n - 1) // 2 <= maxc:
+            exp = sum(val(i, j) for i in range(n) for j in range(i + 1, n)) / (n * (n - 1) // 2)
+        else:
+            mt = EaselMT(42); tot = Fraction(0)
+            for _ in range(maxc):
+                while True:
+                    i = mt.roll(n); j = mt.roll(n)
+                    if j != i: break
+                tot += val(i, j)
+            exp = tot / maxc
+        if not close(got, float(exp), 1e-9) or not (-1e-12 <= got <= 1 + 1e-12):
+            return "%s(max_comparisons=%d) over %d rows = %r, the documented average is %r" % (op, maxc, n, got, float(exp))
+        return None
+
+    def _check_tree(self, n, dl, f, cnt):
+        """the returned ESL_TREE is a rooted binary tree on the n taxa, arrays consistent, branch lengths >= 0 and equal to
+        height differences, heights monotone, clade sizes = leaves below; where no UPGMA step ties: the exact-fraction tree"""
+        il = lambda k: [int(x) for x in f[k].split(",")]
+        left, right, parent, tp, cs = il("left"), il("right"), il("parent"), il("tp"), il("cs")
+        ld = [undbits(x) for x in f["ld"].split(",")]; rd = [undbits(x) for x in f["rd"].split(",")]
+        if f["valid"] != "1": return "esl_tree_Validate rejects the tree"
+        if not (len(left) == len(right) == len(parent) == len(ld) == len(rd) == len(cs) == n - 1 and len(tp) == n): return "array lengths"
+        taxa, nodes = [], []
+        for k in range(n - 1):
+            for ch in (left[k], right[k]):
+                if ch > 0:
+                    if not (k < ch <= n - 2): return "child node %d of node %d not in preorder" % (ch, k)
+                    nodes.append(ch)
+                    if parent[ch] != k: return "parent[%d] = %d but it is a child of %d" % (ch, parent[ch], k)
+                else:
+                    if not (0 <= -ch < n): return "taxon out of range"
+                    taxa.append(-ch)
+                    if tp[-ch] != k: return "taxaparent[%d] = %d but it hangs off node %d" % (-ch, tp[-ch], k)
+        if sorted(taxa) != list(range(n)): return "taxa below the nodes are %r, not each of 0..%d once" % (sorted(taxa)[:10], n - 1)
+        if sorted(nodes) != list(range(1, n - 1)): return "internal nodes are not each a child exactly once"
+        if parent[0] != 0: return "parent of the root is not 0"
+        h = [0.0] * (n - 1); leaves = [0] * (n - 1)
+        for k in range(n - 2, -1, -1):
+            hl = h[left[k]] if left[k] > 0 else 0.0; hr = h[right[k]] if right[k] > 0 else 0.0
+            if not (ld[k] >= 0.0 and rd[k] >= 0.0): return "negative or NaN branch length at node %d" % k
+            if min(dl) >= 0 and not close(ld[k] + hl, rd[k] + hr, 1e-9): return "node %d: left and right depth differ (%r vs %r): branch lengths are not height differences" % (k, ld[k] + hl, rd[k] + hr)
+            h[k] = ld[k] + hl
+            leaves[k] = (leaves[left[k]] if left[k] > 0 else 1) + (leaves[right[k]] if right[k] > 0 else 1)
+            if cs[k] != leaves[k]: return "cladesize[%d] = %d, leaves below = %d" % (k, cs[k], leaves[k])
+        if cs[0] != n: return "cladesize of the root is %d" % cs[0]
+        if max(dl) <= 1.0 and min(dl) >= 0 and h[0] > 0.5 + 1e-12: return "root height %r > 1/2 with all distances <= 1" % h[0]
+        if n <= 30:
+            it = iter(dl); dm = [[Fraction(0)] * n for _ in range(n)]
+            for i in range(n):
+                for j in range(i + 1, n):
+                    dm[i][j] = dm[j][i] = Fraction(next(it))
+            if upgma_tie_free(dm, n):
+                el, er, eld, erd = upgma_exact(dm, n)
+                if el != left or er != right: return "topology differs from UPGMA over exact fractions (no step ties): %r/%r vs %r/%r" % (left, right, el, er)
+                for k in range(n - 1):
+                    if not close(ld[k], float(eld[k])) or not close(rd[k], float(erd[k])): return "branch lengths at node %d differ from exact UPGMA" % k
+                cnt("upgma-exact-oracle")
+            else: cnt("upgma-exact-oracle-skipped-ties")
         return None
 
     def _check_partition(self, c, nc, comp):
@@ -808,6 +1088,10 @@ class C16(Prop):
             cols = []
             if aln.rf is not None and not irf:
                 cols = [j for j in range(alen) if aln.rf[j] not in GAPCH]
+            sampled = f is not None and f.get("samp") == "1" and f.get("all") == "0"
+            if sampled:
+                cols = [int(x) - 1 for x in f["cons"].split(",")]
+                if cols != sorted(set(cols)) or any(not (0 <= j < alen) for j in cols): return "sampled consensus columns are not a column subset: %r" % cols[:12]
             if not cols:
                 import math
                 minspan = int(math.ceil(f32(ft * alen)))
@@ -822,7 +1106,7 @@ class C16(Prop):
                     tot = sum(1 for r, (a, b) in zip(rows, spans) if a <= j <= b and r[j] < Kp - 2)
                     if tot > 0 and f32(gap / tot) < sf: cols.append(j)
             if not cols: cols = list(range(alen))
-            if f is not None:
+            if f is not None and not sampled:
                 got = [int(x) - 1 for x in f["cons"].split(",")] if f["cons"] != "-" else []
                 if got != cols: return "PB consensus columns %r differ from the documented rule %r" % (got[:12], cols[:12])
         raw = []
